@@ -114,7 +114,13 @@ fn crop_line_n<const N: usize>() {
     let kept_max = right - left + 1;
     let out_chars = ref_chars(ob);
     assert!(out_chars <= nchars);
-    assert!(out_chars <= kept_max.saturating_add(2), "cropped line wider than the window");
+    if left > nchars {
+        // documented exception: a (context) line that ends before the window starts is kept intact
+        // rather than being reduced to an ellipsis
+        assert!(ob.len() == N && crop.start_byte == 0 && crop.prefix_bytes == 0, "short line left of the window must be kept intact");
+    } else {
+        assert!(out_chars <= kept_max.saturating_add(2), "cropped line wider than the window");
+    }
     assert!(stdlite::utf8_check(ob).is_ok());
     // 2. rebasing: a byte offset of a character inside the window maps to the same character
     assert!(is_boundary(&a, crop.start_byte));
@@ -141,7 +147,7 @@ fn c17_crop_line_4() {
 }
 
 #[kani::proof]
-#[kani::unwind(9)]
+#[kani::unwind(15)]
 #[kani::stub(core::str::validations::run_utf8_validation, stdlite::run_utf8_validation)]
 #[kani::stub(core::str::count::count_chars, stdlite::count_chars)]
 fn c17_crop_line_6() {
